@@ -68,6 +68,8 @@ fn near_misses(suffix: bool) -> Vec<(&'static str, bool)> {
         // files of another timestamp scheme (members of the family under that scheme only)
         ("app_r2020-01-01_00-00-00.log", false),
         ("app_2020-01-01_00-00-00.log", false),
+        // a well-formed timestamp of the future followed by more text
+        ("app_r2036-03-03_12-00-00-copy.log", false),
         // a well-formed restart extension followed by more text
         ("app_r2020-01-01_00-00-00.restart-0000-copy.log", false),
         ("app_r2020-01-01_00-00-00.restart-00000.log", false),
@@ -224,6 +226,12 @@ fn meta_of(p: &std::path::Path) -> (Vec<u8>, u32, i64) {
 }
 
 fn run(c: &Case, foreign: &[(&'static str, bool)]) -> Result<(RunObs, BTreeMap<String, (Vec<u8>, u32, i64)>), String> {
+    run2(c, foreign, false)
+}
+
+/// `late_dir`: right before the restart, a directory is created that has the name of a compressed
+/// file of the family without ".gz" (the name its original had).
+fn run2(c: &Case, foreign: &[(&'static str, bool)], late_dir: bool) -> Result<(RunObs, BTreeMap<String, (Vec<u8>, u32, i64)>), String> {
     let env = Env::new("c14");
     let mut before = BTreeMap::new();
     for (i, (n, is_dir)) in foreign.iter().enumerate() {
@@ -250,6 +258,17 @@ fn run(c: &Case, foreign: &[(&'static str, bool)]) -> Result<(RunObs, BTreeMap<S
     let mut h = Hist::new(&env, c.cfg.clone());
     let mut listings = Vec::new();
     for op in history(c) {
+        if late_dir && matches!(op, HOp::Restart(_)) {
+            if let Some(gz) = crate::family::list_names(&env.dir).into_iter().find(|n| n.ends_with(".gz")) {
+                let name = gz.trim_end_matches(".gz").to_string();
+                let p = env.dir.join(&name);
+                if !p.exists() {
+                    std::fs::create_dir_all(&p).map_err(|e| e.to_string())?;
+                    std::fs::write(p.join("inner.log"), b"inner\n").ok();
+                    before.insert(name, meta_of(&p));
+                }
+            }
+        }
         h.apply(op).map_err(|e| format!("{e:?}"))?;
         if let Some(l) = h.live.as_ref() {
             for sel in selectors(c) {
@@ -300,6 +319,7 @@ fn name_class(n: &str) -> &'static str {
         "app_r00044.log" | "app_r00044" => "named-pipe-named-like-a-log-file",
         "app_r2023-02-30_10-00-00.log" => "timestamp-shape-but-no-date",
         "app_r2020-01-01_00-00-00.log" | "app_2020-01-01_00-00-00.log" => "other-timestamp-scheme",
+        "app_r2036-03-03_12-00-00-copy.log" => "future-timestamp+text",
         "app_r2020-01-01_00-00-00.restart-0000-copy.log" | "app_r2020-01-01_00-00-00.restart-00000.log" => "restart-extension+text",
         "app_r9999-99-99_99-99-99.log" | "app_r2024-05-15_12-30-10.restart-abcd.log" | "app_r2024-05-15_12-30-10.restart-" => "timestamp-like",
         "app_r00000.log.d" => "directory",
@@ -412,6 +432,25 @@ fn run_unit(tier: &str, unit: usize, out: &mut Out) {
     };
     out.evaluations += 1;
     dir_in_the_way(c, &clean, unit, out);
+    // a directory that appears next to a compressed file of the family and carries the name of
+    // its original: nothing may change
+    if matches!(c.cfg.rotation.map(|r| r.2), Some(CleanK::Gz(_))) {
+        let cc = c.clone();
+        let case = json!({"unit": unit, "late_dir": true});
+        out.evaluations += 1;
+        out.count("late_directory_cases", 1);
+        let key = format!("directory-named-like-the-original-of-a-compressed-file/{}/gz", c.cfg.naming().map_or("none", NamingK::short));
+        match run_isolated(Duration::from_secs(30), move || run2(&cc, &[], true)) {
+            Ran::Done(Ok((pop, before))) => {
+                if let Err(f) = compare(&clean, &pop, &before) {
+                    out.violation(Violation::new(f.clause, key, format!("cfg={:?} restart_append={}: {}", c.cfg, c.restart_append, f.detail), case));
+                }
+            }
+            Ran::Done(Err(e)) => out.violation(Violation::new("run-error", key, e, case)),
+            Ran::Panicked(m) => out.violation(Violation::new("panic", key, m, case)),
+            Ran::Hung => out.violation(Violation::new("hang", key, String::new(), case)),
+        }
+    }
     let names = foreign_names(c);
     let max = if tier == "quick" { 2 } else { 3 };
     // singletons first: a set is only explored if none of its proper subsets already failed with
@@ -520,6 +559,19 @@ fn replay(case: &Value) -> Vec<Violation> {
     let g = grid();
     let unit = case["unit"].as_u64().unwrap_or(0) as usize;
     let Some(c) = g.get(unit) else { return vec![] };
+    if case["late_dir"].as_bool() == Some(true) {
+        println!("replay C14: cfg={:?} restart_append={} a directory named like the original of a compressed file appears before the restart", c.cfg, c.restart_append);
+        let cc = c.clone();
+        let cc2 = c.clone();
+        let key = format!("directory-named-like-the-original-of-a-compressed-file/{}/gz", c.cfg.naming().map_or("none", NamingK::short));
+        return match (run_isolated(Duration::from_secs(30), move || run(&cc, &[])), run_isolated(Duration::from_secs(30), move || run2(&cc2, &[], true))) {
+            (Ran::Done(Ok((clean, _))), Ran::Done(Ok((pop, before)))) => match compare(&clean, &pop, &before) {
+                Ok(()) => vec![],
+                Err(f) => vec![Violation::new(f.clause, key, f.detail, case.clone())],
+            },
+            other => vec![Violation::new("run-error", key, format!("{:?}", other.1), case.clone())],
+        };
+    }
     if let Some(t) = case["dir_in_the_way"].as_str() {
         println!("replay C14: cfg={:?} restart_append={} directory in the way: {t}", c.cfg, c.restart_append);
         let cc = c.clone();
